@@ -13,6 +13,7 @@ import LogosModel.Api
 import LogosModel.CertP
 import LogosModel.FastCheck
 import LogosModel.DriverLook
+import LogosModel.Emit
 import Std.Data.HashMap
 import LogosModel.Source
 import Std.Data.HashSet
@@ -330,6 +331,37 @@ def specPStr (c : Case) (inp : List Nat) : String :=
   if c.hasLook then "LOOK" else
   streamStr c (specLexP c.prios.toList c.res c.cb c.utf8 inp)
 
+/-! ## predicted rendering of the generated code (Emit.lean) -/
+
+def cmpStr (c : Emit.Cmp) : String :=
+  s!"{c.lo}-{c.hi}" ++ String.join (c.except.map fun e => s!"!{e}")
+
+def condStr : Emit.Cond → String
+  | .lut id => s!"L{id}"
+  | .chain cs => "C" ++ "|".intercalate (cs.map cmpStr)
+
+def forkStr : Emit.Fork → String
+  | .table t => "T" ++ ",".intercalate (t.map fun o => match o with | some s => toString s | none => "-")
+  | .chain cs => "M" ++ ";".intercalate (cs.map fun c => s!"{condStr c.1}>{c.2}")
+
+def bitsHex (bs : List Bool) : String :=
+  let rec go : List Bool → List Char → List Char
+    | a :: b :: c :: d :: t, acc =>
+      let v := (if a then 8 else 0) + (if b then 4 else 0) + (if c then 2 else 0) + (if d then 1 else 0)
+      go t ((if v < 10 then Char.ofNat (48 + v) else Char.ofNat (87 + v)) :: acc)
+    | _, acc => acc
+  String.ofList (go bs []).reverse
+
+/-- "EMIT": one item per state `s:loop:fork`, then the look-up tables in id order -/
+def emitAnswer (c : Case) : String :=
+  if c.nodump then "NODUMP" else
+  let p := Emit.planGraph c.graph
+  let sts := (List.range p.2.length).map fun i =>
+    match p.2[i]? with
+    | some sp => s!"{i}:{match sp.loop with | some l => toString l | none => "-"}:{forkStr sp.fork}"
+    | none => ""
+  " ".intercalate sts ++ " LUTS " ++ " ".intercalate (p.1.map bitsHex)
+
 def answer (c : Case) (q : List String) : String :=
   match q with
   | ["CERT"] => certVerdict c 200000
@@ -343,6 +375,7 @@ def answer (c : Case) (q : List String) : String :=
   | ["UTF8CLOSED"] => " ".intercalate (c.hirs.toList.map utf8Verdict)
   | ["COMPLETE", hex] => completeAnswer c (unhex hex)
   | ["TIE"] => tieVerdict c
+  | ["EMIT"] => emitAnswer c
   | ["EQUIV", i, j] => equivVerdict c i.toNat! j.toNat!
   | ["EQUIV", i, j, f] => equivVerdict c i.toNat! j.toNat! f.toNat!
   | ["MATCH", i, hex] => matchVerdict c i.toNat! (unhex hex)
